@@ -12,7 +12,7 @@ from ..rulegen import RuleGen
 from ..specgen import normalise_cond, normalise_path, nested_leaves, path_leaves
 from ..describe import Inert0
 from ..ruleterms import Tags, obs_rule_test, RuleT
-from ..terms import valida, Bin
+from ..terms import valida, Bin, Leaf
 from ..pathterms import PathT
 from .c09 import IMPORTS
 from .c10 import limit_parts
@@ -21,8 +21,8 @@ from .c15 import cast_doc
 
 PROP = "C13"
 THEOREMS = ["C13_rule_with_path_arguments", "C13_schema_with_path_arguments", "C13_rule", "C13_rule_behaviour", "C13_paths_of_c12_roundtrip", "C13_cast_blocks", "C13_cast_names_back", "C13_schema",
-            "C13_modified_path_is_refused"]
-DEPENDS = ['Py.v', 'Lang.v', 'Defs.v', 'Cond.v', 'Dsl.v', 'Check.v', 'DocSem.v', 'Inst.v', 'Gen/TablesGen.v', 'Gen/CallablesGen.v', 'Gen/SpecGen.v', 'Path.v', 'PathSpec.v', 'Cast.v', 'Str.v', 'SpecDefs.v', 'RuleDefs.v', 'Rule.v', 'Spec.v', 'SpecIO.v', 'Eq.v', 'FromStr.v', 'RunSpec.v', 'SpecSpell.v', 'RuleTerms.v', 'Proofs/Tie.v', 'Proofs/PyFacts.v', 'Proofs/C01Proof.v', 'Proofs/C02Proof.v', 'Proofs/C03Proof.v', 'Proofs/C04Proof.v', 'Proofs/RuleProof.v', 'Proofs/C09Proof.v', 'Proofs/C10Proof.v', 'Proofs/C11Proof.v', 'Proofs/C14Proof.v', 'Proofs/C12Proof.v', 'Proofs/C13Proof.v', 'Proofs/C13Glue.v', 'Proofs/SchemaSpecProof.v', 'Proofs/C11EscProof.v', 'Proofs/C11PathProof.v', 'Proofs/C13PathProof.v', 'Properties/C13.v']
+            "C13_modified_path_is_refused", "C13_rule_with_nested_path_arguments", "C13_schema_with_nested_path_arguments"]
+DEPENDS = ['Py.v', 'Lang.v', 'Defs.v', 'Cond.v', 'Dsl.v', 'Check.v', 'DocSem.v', 'Inst.v', 'Gen/TablesGen.v', 'Gen/CallablesGen.v', 'Gen/SpecGen.v', 'Path.v', 'PathSpec.v', 'Cast.v', 'Str.v', 'SpecDefs.v', 'RuleDefs.v', 'Rule.v', 'Spec.v', 'SpecIO.v', 'Eq.v', 'FromStr.v', 'RunSpec.v', 'SpecSpell.v', 'RuleTerms.v', 'Proofs/Tie.v', 'Proofs/PyFacts.v', 'Proofs/C01Proof.v', 'Proofs/C02Proof.v', 'Proofs/C03Proof.v', 'Proofs/C04Proof.v', 'Proofs/RuleProof.v', 'Proofs/C09Proof.v', 'Proofs/C10Proof.v', 'Proofs/C11Proof.v', 'Proofs/C14Proof.v', 'Proofs/C12Proof.v', 'Proofs/C13Proof.v', 'Proofs/C13Glue.v', 'Proofs/SchemaSpecProof.v', 'Proofs/C11EscProof.v', 'Proofs/C11PathProof.v', 'Proofs/C13PathProof.v', 'NestedArgs.v', 'NestedIO.v', 'NestedRuleIO.v', 'Proofs/C11NestedProof.v', 'Proofs/C13NestedProof.v', 'Properties/C13.v']
 FACT_LEMMAS = ["C13Proof cast-table facts (closed computations on the generated tables)"]
 ASSUMPTIONS = ["Layer P models CPython's operators (pysem)", "json text is produced and parsed by the real json module"]
 
@@ -63,6 +63,72 @@ def corpus_schemas():
         for cast in ([], ["int"]):
             out.append((doc, [RuleT(PathT([Prim("rec"), part]), Leaf("ValueDataType", "equal_to", [int]), cast),
                               RuleT(PathT([Prim("lst"), Prim("k"), part]), Leaf("Value", "truthy", []), cast)]))
+    return out
+
+
+NESTED_IMPORTS = ("Py Lang Defs Cond Dsl Check DocSem PathSpec Path Cast RuleDefs RuleSpec Rule Inst Run RunRule RuleTerms NestedArgs "
+                  "SpecDefs Spec SpecIO Eq NestedIO NestedRuleIO")
+CASTS_N = {"bool": "(TStr, CastStrBool)", "int": "(TStr, CastStrInt)"}
+
+
+def nested_rule_cases(g, rg, n, direct):
+    """Correspondence for rules whose condition has data paths nested in a list / mapping argument (NestedRuleIO.v):
+    Rule.to_json_like, purity of the JSON, Rule.from_json_like(json) == original; and, on the implementation, the same verdict."""
+    from .c17 import enc_narg
+    from ..pathgen import PathGen
+    from ..specgen import normalise_path
+    from .c10 import limit_parts
+    v = valida()
+    pg = rg.pg if hasattr(rg, "pg") else PathGen(rg.cg)
+    out = []
+    lits = [1, "s", None, 2.5, True, {"path": 1}, {"a": [1]}, [1, "x"], {"\\path": 3}, []]
+    for _ in range(n):
+        doc = cast_doc(g, 3) if g.r.random() < 0.5 else g.document(3, 4)
+
+        def item():
+            if g.r.random() < 0.5:
+                return normalise_path(limit_parts(pg.path(doc, max_len=2, mods_p=0.4)))
+            return copy.deepcopy(g.r.choice(lits))
+        if g.r.random() < 0.65:
+            arg = [item() for _ in range(g.r.randint(1, 3))]
+        else:
+            arg = {kk: item() for kk in g.r.sample(["k", "j", "a", "mypath"], g.r.randint(1, 2))}
+        cond = Leaf("Value", g.r.choice(["in_", "not_in", "equal_to", "not_equal_to"]) if isinstance(arg, list) else g.r.choice(["equal_to", "not_equal_to"]), [arg])
+        base = rg.rule(doc, cast_p=0.5)
+        if not in_fragment(g, RuleT(base.path, Leaf("Value", "truthy", []), base.cast)):
+            continue
+        rt = RuleT(base.path, cond, base.cast)
+        if not rt.cast and g.r.random() < 0.15:
+            rt.empty_cast = True
+
+        def impl():
+            r = rt.build()
+            j = r.to_json_like()
+            pure = json.loads(json.dumps(j)) == j
+            r2 = v.Rule.from_json_like(copy.deepcopy(j))
+            return (copy.deepcopy(j), pure, bool(r2 == r)), r, r2
+        o = E.run_outcome(impl)
+        obs = (o[0], o[1][0]) if o[0] == "ok" else o
+        try:
+            tags = Tags()
+            casts = "[" + "; ".join(CASTS_N[c] for c in rt.cast[:1]) + "]"
+            rc = f"{{| rtn_path := {rt.path.coq()}; rtn_cond := {rt.cond.coq(enc_narg(tags))}; rtn_cast := {casts} |}}"
+            model = f"(run_rule_n_roundtrip_g {rc} {E.enc_bool(rt.cast_given())})"
+            if len(model) > 8000:
+                continue
+            out.append(Case({"kind": "nested-rule", "rule": rt.descr()[:400], "impl": obs[0] + ":" + repr(obs[1])[:300], "coq": model[:8000]},
+                            model, None, E.enc_res(obs), obs, obs[0] == "ok" and obs[1][2], key=("nested-rule", rt.descr()[:300])))
+        except (E.Unencodable, Exception):
+            continue
+        if o[0] == "ok" and o[1][0][2]:
+            _, r, r2 = o[1]
+            for d in (doc, cast_doc(g, 2)):
+                a = E.run_outcome(lambda: (obs_rule_test(t_ := r.test(copy_value(d))), t_.data.get_original()))
+                b = E.run_outcome(lambda: (obs_rule_test(t_ := r2.test(copy_value(d))), t_.data.get_original()))
+                if a != b:
+                    direct.append({"kind": "direct", "what": "rebuilt rule (nested path arguments) judges differently", "rule": rt.descr()[:300],
+                                   "doc": jval(d), "orig": repr(a)[:200], "rebuilt": repr(b)[:200]})
+                    break
     return out
 
 
@@ -161,6 +227,15 @@ def run(tier, seed, model_ok, spec_ok, replay=None):
                                "doc": jval(d), "orig": repr(a)[:200], "rebuilt": repr(b)[:200]})
                 break
     k_bad, o_bad, nk, no, err = run_passes("c13", IMPORTS, cases, model_ok, spec_ok)
+    ncases = nested_rule_cases(g, rg, 120 if tier == "quick" else 3000, direct)
+    nk_bad, _, nnk, _, nerr = run_passes("c13n", NESTED_IMPORTS, ncases, model_ok, False)
+    for c in ncases:
+        dist["nested-rule:" + (("equal" if c.outcome[1][2] else "not-equal") if c.outcome[0] == "ok" else c.outcome[1])] += 0
+    nested_dist = Counter("nested-rule:" + (("equal" if c.outcome[1][2] else "not-equal") if c.outcome[0] == "ok" else c.outcome[1]) for c in ncases)
+    k_bad = k_bad + [len(cases) + i for i in nk_bad]
+    cases = cases + ncases
+    nk += nnk
+    err = err or nerr
     res = {"evaluations": len(cases) + sum(dist.values()), "k_cases": nk, "o_cases": sum(dist.values()),
            "nontrivial": len({c.key for c in cases if c.nontrivial}),
            "rule": "schemas of 1-3 rules in the C11 / C12 fragments, 50% with str->int / str->bool casts; to_json_like -> "
